@@ -15,8 +15,8 @@ namespace Circus.Core
     pids; each listed worker runs, ignores terminating signals (`term = none`), dies at once on SIGKILL
     (`killLat = 0`), has no children, and its process object is fresh (`Stubborn u w s`); the daemon is permitted
     to signal every process (`Kernel.Base.signalable`: no worker under another uid — with such a worker the stop
-    *fails*, see `C10_failed_stop_frees_slot`); the request is `stop` for that watcher by name (`match: simple`),
-    `waiting` or not.
+    *fails* part-way, see Props/C10Fail.lean and the evaluated histories there and in Props/C06.lean); the request is
+    `stop` for that watcher by name (`match: simple`), `waiting` or not.
 
     Claim: the request followed by exactly `n = m * ⌈graceful_timeout / 100 ms⌉` timer firings ends with
     nothing in flight and the slot free, the watcher `stopped` with an empty process list, every one of the
